@@ -751,8 +751,8 @@ pub fn gen_opfee(seed: u64, n: usize) -> Vec<String> {
             for _ in 0..n { x = x.wrapping_mul(1664525).wrapping_add(1013904223); v.push((x >> 24) as u8); }
             v
         };
-        for d in [8190usize, 8191, 8192, 8193, 8194, 65535, 65536] {
-            for mlen in [3usize, 4, 8, 264, 300] {
+        for d in [8190usize, 8191, 8192, 8193, 8194] {
+            for mlen in [3usize, 8, 264] {
                 let marker: Vec<u8> = (0..mlen).map(|i| 0xA0u8.wrapping_add((i * 7) as u8)).collect();
                 let mut v = filler(40, 1);
                 v.extend_from_slice(&marker);
